@@ -36,6 +36,8 @@ def snap(state):
     out = dict(pid=[int(p) for p in v["pid"]], x=q(v["X"]), y=q(v["Y"]), z=q(v["Z"]),
                alive=[bool(a) for a in v["alive"]], active=[bool(a) for a in v["active"]],
                lens=[int(len(v[k])) for k in sorted(state.instance_variables)], npid=int(state.npid))
+    t = v.get("temp")          # scalar forcing variable of the end-to-end world (integer valued by construction)
+    out["temp"] = [int(round(float(x))) if np.isfinite(float(x)) else -(2**30) for x in t] if t is not None and len(t) == n else []
     for name in EXTRA["ivars"]:
         a = v.get(name)
         out[name] = [int(round(float(x))) if np.isfinite(float(x)) else -(2**30) for x in a] if a is not None and len(a) == n else []
